@@ -60,6 +60,9 @@ def family(tier, seed):
 def tasks(tier, seed):
     ts = []
     for i, sh in enumerate(family(tier, seed)):
+        if any(s.get('unknown_len') for s in sh):
+            ts.append(dict(shape=sh, marker=True, sid=i))
+            continue
         ts.append(dict(shape=sh, marker=False, sid=i))
         enc = s1.build(sh)
         last = enc.segs[-1]
